@@ -62,7 +62,7 @@ for k in (2, 4, 5):
 
 
 # ---- VectorMap (C19) --------------------------------------------------------------------
-for n in ["one_op", "two_ops", "iteration", "grow", "twin"]:
+for n in ["one_op", "two_ops", "iteration", "ops_then_iteration", "grow", "twin"]:
     add("vmap_" + n, "crate::h_vmap::" + n, 8)
 
 
